@@ -52,6 +52,14 @@ def body_for(i, kind, shape, kinds=()):
     false, conditions), calls a recorder."""
     b = [T('B%d[' % i)] + earlier_refs(kinds, i)
     name = 'c%d' % i
+    if kind in ('T', 'RT'):
+        # ... also from expressions, which see the value, not the object
+        b.append(dict(k='var', opts=[], ref=dict(r='expr', e=dict(
+            e='cat', a=dict(e='name', n=name), b=dict(e='lit', v='+')))))
+        b.append(dict(k='if', conds=[dict(r='expr', e=dict(
+            e='eq', a=dict(e='name', n=name),
+            b=dict(e='lit', v=('yes%d' if kind == 'T' else 'Y%d') % i)))],
+            bodies=[[T('=')]], **{'else': [T('#')]}))
     if kind in ('T', 'RT', 'HX'):
         b.append(V(name))
         inner = [T('n('), V(name), T(')')]
@@ -63,8 +71,11 @@ def body_for(i, kind, shape, kinds=()):
                               k='in', ref=dict(r='name', n='ss'), opts=[],
                               body=[V(name)], **{'else': None})]))
         else:
-            b.append(dict(k='let', binds=[['la', dict(r='name', n=name)]],
-                          body=[V('la'), dict(k='unless', ref=dict(
+            b.append(dict(k='let', binds=[['la', dict(r='name', n=name)]] + (
+                [['lb', dict(r='expr', e=dict(e='name', n=name))]]
+                if kind != 'HX' else []),
+                          body=[V('la')] + ([V('lb')] if kind != 'HX' else [])
+                          + [dict(k='unless', ref=dict(
                               r='name', n=name), body=[T('never')])]))
     b.append(V('b%d' % i))
     b.append(T(']'))
